@@ -379,6 +379,9 @@ COUNT_PROBES = [
     ('discarded-index-of-call', 'let c = 0; function mk(k) -> begin c <- c + 1; array(2, k) end; mk(1)[0]; begin mk(2)[1]; 0 end; if true then mk(3)[0] else 0; print("c=~\\n", c)'),
     ('discarded-nested-field', 'let c = 0; function mk(k) -> begin c <- c + 1; object begin let v = k end end; mk(mk(2)).v.v; print("c=~\\n", c)'),
     ('discarded-variable-and-field', 'let o = object begin let v = 1 end; function g(a, b) -> print("~ ~\\n", a, b); g(1, begin o.v; o; 2 end)'),
+    ('array-size-variable-changed-by-initializer', 'let n = 4; let a = array(n, begin n <- n - 1; n end); print("~ ~\\n", a, n)'),
+    ('array-size-variable-changed-by-called-function', 'let n = 3; function dec() -> begin n <- n - 1; n end; print("~ ~\\n", array(n, dec()), n)'),
+    ('array-size-field-changed-by-initializer', 'let o = object begin let n = 3 end; print("~\\n", array(o.n, begin o.n <- o.n - 1; o.n end))'),
     ('loop-condition-count', 'let n = 0; function c() -> begin n <- n + 1; print("c~;", n); n < 3 end; while c() do print("b;"); print(" n=~\\n", n)'),
     ('object-parent-once', 'let n = 0; function p() -> begin n <- n + 1; null end; let o = object extends p() begin let a = p(); let b = p() end; print("~ ~\\n", n, o)'),
 ]
@@ -438,6 +441,8 @@ def dispatch_ast(d):
         ms = [Let('tag', I(i))]
         if 'M' in defs:
             ms.append(Fun('m', ['a', 'b'], Blk([Pr('M%d;' % i), Op('+', Op('+', V('a'), V('b')), GF(V('this'), 'tag'))])))
+        if 'a' in defs:
+            ms.append(Fun('add', ['n'], Blk([Pr('a%d;' % i), Op('*', V('n'), I(100))])))
         if 'G' in defs:
             ms.append(Fun('get', [], Blk([Pr('G%d;' % i), GF(V('this'), 'tag')])))
         if 'm' in defs:
@@ -455,7 +460,7 @@ def dispatch_ast(d):
     c = {'m1': MC(t, 'm', [I(10)]), 'm0': MC(t, 'm', []), 'm2': MC(t, 'm', [I(1), I(2)]), 'plus': Op('+', t, I(1)), 'and': Op('&', t, B(True)),
          'index': Ix(t, I(0)), 'setindex': SIx(t, I(1), I(9)), 'get': MC(t, 'get', [I(1)]), 'set': MC(t, 'set', [I(0), I(4)]),
          'zz': MC(t, 'zz', [I(1)]), 'field': GF(t, 'tag'),
-         'eqnull': Op('==', t, N()), 'ne5': Op('!=', t, I(5)), 'feq': MC(t, 'eq', [N()]), 'fneq': MC(t, 'neq', [I(5)])}[call]
+         'eqnull': Op('==', t, N()), 'ne5': Op('!=', t, I(5)), 'feq': MC(t, 'eq', [N()]), 'fneq': MC(t, 'neq', [I(5)]), 'add1': MC(t, 'add', [I(1)])}[call]
     es += [Pr('r=~\\n', [c]), Pr('t=~\\n', [t]), Pr('after\\n')]
     return Top(es)
 
@@ -650,7 +655,7 @@ def deep_programs(tier):
     P.append(('chain:nested-arrays-%d-print' % m, 'let a = array(1, 0); let i = 0; while i < %d do begin a <- array(1, a); i <- i + 1 end; print("~\\n", a)' % m))
     d = 3000 if big else 800
     P.append(('depth:recursion-%d' % d, 'function d(n) -> if n == 0 then 0 else 1 + d(n - 1); print("~\\n", d(%d))' % d))
-    k = 200 if big else 60
+    k = 100 if big else 60          # (TLC's JSON reader refuses nesting beyond 255 levels: source nesting 200 is judged by the termination rules, below)
     P.append(('nest:blocks-%d' % k, 'begin ' * k + 'print("deep\\n")' + ' end' * k))
     P.append(('nest:parens-%d' % k, 'print("~\\n", ' + '(' * k + '1' + ')' * k + ')'))
     P.append(('nest:ifs-%d' % k, 'print("~\\n", ' + 'if true then ' * k + '7' + ' else 0' * k + ')'))
